@@ -718,6 +718,10 @@ func c18wireCase(c *runner.Ctx, i int) {
 				return
 			}
 		}
+		if loadLike(err) && len(cl.BadFramesCopy()) == 0 {
+			c.Inconclusive("c18-session", err.Error())
+			return
+		}
 		c.Violation("C18:wire:cannot-connect", fmt.Sprintf("session creation failed (%s): %v", key, err), wit(map[string]interface{}{"bad_frames": cl.BadFramesCopy()}))
 		return
 	}
@@ -826,6 +830,11 @@ func c18wireCase(c *runner.Ctx, i int) {
 			for j := range ch {
 				tok, data, err := run(j)
 				if err != nil {
+					if loadLike(err) && len(cl.BadFramesCopy()) == 0 {
+						// a starved machine: the (20 s) timeout expired with nothing wrong on the wire
+						c.Inconclusive("c18-timeout", fmt.Sprintf("an ordinary %s ended with %v", j.kind, err))
+						continue
+					}
 					c.Violation("C18:wire:request-failed", fmt.Sprintf("an ordinary %s failed (%s): %v", j.kind, key, err), wit(map[string]interface{}{"job": fmt.Sprintf("%+v", j), "bad_frames": cl.BadFramesCopy()}))
 					continue
 				}
